@@ -141,14 +141,17 @@ class SimEs:
     def new_request_context(self):
         return self._h.new_request_context()
 
-    async def sim_request(self, task_name, svc, fail=None):
+    async def sim_request(self, task_name, svc, fail=None, parent=None):
         self._h.on_request_start()
         start = self.sim.clock
         self.sim.note("req-start", client=self.client_id, task=task_name)
         if svc > 0:
             await asyncio.sleep(svc)
         self._h.on_request_end()
-        self.sim.request_log.append({"client": self.client_id, "task": task_name, "start": start, "end": self.sim.clock, "fail": fail})
+        entry = {"client": self.client_id, "task": task_name, "start": start, "end": self.sim.clock, "fail": fail}
+        if parent is not None:
+            entry["parent"] = parent  # a sub-request of a composite request of task `parent`
+        self.sim.request_log.append(entry)
         if fail:
             raise self.sim.make_exception(fail)
 
@@ -184,11 +187,31 @@ class SimRunner:
         if fault == "runner-raises":
             raise RuntimeError("runner fault (injected)")
         svc = self.sim.service_time(name, es.client_id, n)
-        await es.sim_request(name, svc, fail=fault)
+        await es.sim_request(name, svc, fail=fault, parent=params.get("parent"))
         return {"weight": params.get("weight", 1), "unit": "ops", "success": True}
 
     def __repr__(self):
         return "sim-runner"
+
+
+def make_sim_composite():
+    """the real Composite runner, allowed to issue `sim` sub-requests; every logical request is logged"""
+    from esrally.driver import runner
+
+    class SimComposite(runner.Composite):
+        def __init__(self, *a, **k):
+            super().__init__(*a, **k)
+            self.supported_op_types = list(self.supported_op_types) + ["sim"]
+
+        async def __call__(self, es, params):
+            sim = es.sim
+            start = sim.clock
+            try:
+                return await super().__call__(es, params)
+            finally:
+                sim.request_log.append({"client": es.client_id, "task": params["task"], "start": start, "end": sim.clock, "fail": None, "composite": True})
+
+    return SimComposite()
 
 
 def make_param_source_class(sim):
@@ -281,6 +304,7 @@ def patch_modules():
             if not sim.closed:
                 sim.note("task-done", client=self.client_id, task=self.task.name)
 
+    observed_call.__wrapped__ = orig_call
     driver.AsyncExecutor.__call__ = observed_call
 
     # observe the sample pipeline (C07): every Sample gets an id when it is offered to the Sampler
@@ -304,6 +328,7 @@ def patch_modules():
                                     "tput": sample.throughput}
         sim.note("sample", sid=sid, accepted=accepted, worker=sim.current)
 
+    observed_add.__wrapped__ = orig_add
     driver.Sampler.add = observed_add
     orig_pp = driver.Driver.post_process_samples
 
@@ -320,6 +345,7 @@ def patch_modules():
             sim.note("postprocess", raw=raw, stored=sim.sids_of_docs(docs), fed=sim.fed_buffer if sim.fed_buffer is not None else [],
                      tput=sim.tput_buffer, tput_docs=sum(1 for d in docs if d.get("name") == "throughput"))
 
+    observed_pp.__wrapped__ = orig_pp
     driver.Driver.post_process_samples = observed_pp
     orig_calc = driver.ThroughputCalculator.calculate
 
@@ -331,6 +357,7 @@ def patch_modules():
         SIM.tput_buffer = [[t.name, [[abs_t, rel_t, st == _m.SampleType.Normal, v, u] for (abs_t, rel_t, st, v, u) in vals]] for t, vals in r.items()]
         return r
 
+    observed_calc.__wrapped__ = orig_calc
     driver.ThroughputCalculator.calculate = observed_calc
 
 
@@ -379,9 +406,16 @@ def make_track(scenario):
     from esrally.track import track
 
     def mk(t):
-        op = track.Operation(
-            t["name"], "sim", params={"task": t["name"], "eternal": bool(t.get("eternal")), "weight": t.get("weight", 1)}, param_source="sim-source"
-        )
+        params = {"task": t["name"], "eternal": bool(t.get("eternal")), "weight": t.get("weight", 1)}
+        op_type = "sim"
+        if t.get("subs"):
+            # a composite request (real runner.Composite): `subs` = list of streams, each a list of sub-request names; streams run
+            # concurrently, the sub-requests of a stream one after the other
+            op_type = "sim-composite"
+            params["requests"] = [
+                {"stream": [{"operation-type": "sim", "name": n, "task": n, "parent": t["name"]} for n in stream]} for stream in t["subs"]
+            ]
+        op = track.Operation(t["name"], op_type, params=params, param_source="sim-source")
         return track.Task(
             t["name"],
             op,
@@ -543,6 +577,7 @@ class Sim:
         self.cfg = make_config(scenario)
         self.track = make_track(scenario)
         runner.register_runner("sim", SimRunner(self), async_runner=True)
+        runner.register_runner("sim-composite", make_sim_composite(), async_runner=True)
         rparams.register_param_source_for_name("sim-source", make_param_source_class(self))
         self.full = bool(scenario.get("full_race"))
         self.timed = sorted(scenario.get("timed", []), key=lambda x: x[0])  # [time, action, arg]
